@@ -324,6 +324,10 @@ func (r *objRecord) decode(buf []byte, prefix string, cnt3 uint8, hashSize int) 
 		return len(start) - len(buf), true
 	}
 
+	if count > uint64(len(buf)) {
+		// every offset takes at least one byte
+		return
+	}
 	r.Offsets = make([]uint64, 1, count)
 	r.Offsets[0], n = getVarInt(buf)
 	if n <= 0 {
